@@ -287,6 +287,8 @@ impl M {
             let mut c = self.classes.lock().unwrap();
             *c.entry(if r.problem.is_some() { "violates".into() } else { format!("spare-capacity-{}xx", r.spare / 1000) }).or_insert(0) += 1;
         }
+        // (the adaptor's own spare capacity is not part of the key: the current adaptors copy through
+        // extend_from_slice and never depend on it; a product with the connection's spare capacity would be ~1500^2 states)
         St { inst, canon: (r.spare, crate::report::h64(&r.buffer), crate::report::h64(&r.adaptor)), hist, terminal }
     }
 }
